@@ -149,7 +149,7 @@ func vProbe(st *vStoreState, tag string) {
 
 func verifHarness_C09() {
 	useProto := nondetBool()
-	op := verifCase(7)
+	op := verifCase(8)
 	st := vBuildStore(useProto)
 	s := st.s
 	switch op {
@@ -226,6 +226,16 @@ func verifHarness_C09() {
 			st.entries[k].present = verifAnd(st.entries[k].present, st.entries[k].log.Index != l.Index)
 		}
 		st.entries = append(st.entries, vEntry{present: true, log: l})
+	case 7:
+		// reopening a JSON database with protobuf encoding converts it in place; bound: the
+		// entries are not commands (command entries need the robust.Message decoders, C18)
+		verifCaseLabel("ConvertToProto")
+		verifAssume(!useProto)
+		for k := range st.entries {
+			verifAssume(st.entries[k].log.Type != raft.LogCommand)
+		}
+		s.useProtobuf = true
+		verifAssert(s.ConvertToProto() == nil, "converttoproto-no-error")
 	}
 	vProbe(st, "after")
 }
